@@ -54,6 +54,7 @@ func (self *Analyzer) lastIsErrorAt(span errors.Span) bool {
     assume-safety
     requires got != nil && expected != nil
     ensures @silent len(self.diagnostics) == old(len(self.diagnostics))
+    ensures @proceed-means-same-kind proceed ==> err == nil && got.Kind() == expected.Kind()
     ensures @same-kind got.Kind() == expected.Kind() && got.Kind() != ast.UnknownTypeKind && got.Kind() != ast.NeverTypeKind ==> err == nil && proceed
     ensures @different-kind got.Kind() != expected.Kind() && got.Kind() != ast.UnknownTypeKind && got.Kind() != ast.NeverTypeKind && expected.Kind() != ast.UnknownTypeKind && expected.Kind() != ast.NeverTypeKind ==> err != nil && err.GotDiagnostic.Level == diagnostic.DiagnosticLevelError
 @*/
@@ -98,6 +99,7 @@ func vSameShape(got ast.Type, expected ast.Type) bool {
     split got.Kind() in 0..14
     assumepre TypeCheck
     requires got != nil && expected != nil
+    assert @expected-type-is-inspected-only-after-the-kind-check before-each := expected.(ast. :: expected.Kind() == got.Kind()
     assert @unnamed-parameter-type-checked before-each continue :: options.IgnoreFnParamNameMismatches && paramTypeErr == nil && foundParam == nil
     assert @named-parameter-found before if err := self.TypeCheck(foundParam.Type, expectedParam.Type, options); err != nil :: foundParam != nil && foundParam.Name.Ident() == expectedParam.Name.Ident()
     loop "range gotFnParams.Params" invariant foundParam == nil || foundParam.Name.Ident() == expectedParam.Name.Ident()
@@ -301,6 +303,8 @@ func vb2i(b bool) int {
     ensures @no-else-means-no-value len(self.diagnostics) == old(len(self.diagnostics)) && result.ElseBlock == nil ==> result.ResultType.Kind() == ast.NullTypeKind
     ensures @branches-of-one-kind len(self.diagnostics) == old(len(self.diagnostics)) && result.ElseBlock != nil ==> result.ThenBlock.ResultType.Kind() == result.ElseBlock.ResultType.Kind() || result.ThenBlock.ResultType.Kind() == ast.AnyTypeKind || result.ThenBlock.ResultType.Kind() == ast.UnknownTypeKind || result.ThenBlock.ResultType.Kind() == ast.NeverTypeKind || result.ElseBlock.ResultType.Kind() == ast.AnyTypeKind || result.ElseBlock.ResultType.Kind() == ast.UnknownTypeKind || result.ElseBlock.ResultType.Kind() == ast.NeverTypeKind
     ensures @type-of-the-whole len(self.diagnostics) == old(len(self.diagnostics)) && result.ElseBlock != nil ==> result.ResultType.Kind() == result.ElseBlock.ResultType.Kind() || result.ResultType.Kind() == result.ThenBlock.ResultType.Kind()
+    ensures @a-diverging-then-branch-leaves-the-type-of-else len(self.diagnostics) == old(len(self.diagnostics)) && result.ElseBlock != nil && result.ThenBlock.ResultType.Kind() == ast.NeverTypeKind ==> result.ResultType.Kind() == result.ElseBlock.ResultType.Kind()
+    ensures @a-diverging-else-branch-leaves-the-type-of-then len(self.diagnostics) == old(len(self.diagnostics)) && result.ElseBlock != nil && result.ElseBlock.ResultType.Kind() == ast.NeverTypeKind ==> result.ResultType.Kind() == result.ThenBlock.ResultType.Kind()
 @*/
 
 /*@ func (self *Analyzer) tryExpression
@@ -465,11 +469,13 @@ func vAssignAdmits(op pAst.AssignOperator, k ast.TypeKind) bool {
 // variable has the annotated type.
 
 /*@ func (self *Analyzer) letStatement
-    serves C03
+    serves C03, C12
     assume-safety
     assumepre expression, TypeCheck, SetSpan, addVar
     requires self.currentModule != nil
     ensures @scratch-counter ghost(reported) == ghost(reported)
+    ghostat @the-any-check after rhsHasAny := self.CheckAny(rhsType) :: dynamic = vb2i(rhsHasAny)
+    ensures @an-initialiser-containing-any-is-validated-at-run-time result.NeedsRuntimeTypeValidation == (ghost(dynamic) == 1) && ghost(dynamic) == ghost(dynamic)
     ghostat @before-the-check before if err := self.TypeCheck(rhsType, optType, TypeCheckOptions{ :: reported = len(self.diagnostics)
     assert @value-must-fit-the-annotation after if err := self.TypeCheck(rhsType, optType, TypeCheckOptions{ :: ast.VScalarKind(rhsType.Kind()) && ast.VScalarKind(optType.Kind()) && rhsType.Kind() != optType.Kind() ==> len(self.diagnostics) > ghost(reported)
     assert @annotated-type-is-the-variable-type after if err := self.TypeCheck(rhsType, optType, TypeCheckOptions{ :: len(self.diagnostics) == ghost(reported) ==> varType == optType
@@ -502,4 +508,21 @@ func vAssignAdmits(op pAst.AssignOperator, k ast.TypeKind) bool {
     ensures @call-kept result.Base != nil && result.ResultType != nil && result.IsSpawn == node.IsSpawn
     ghostat @before-the-callee-check before switch base.Type().Kind() { :: reported = len(self.diagnostics)
     assert @only-functions-are-called before if node.IsSpawn && thisExpressionResultsIn != nil { :: base.Type().Kind() == ast.NeverTypeKind || base.Type().Kind() == ast.UnknownTypeKind || base.Type().Kind() == ast.FnTypeKind || len(self.diagnostics) > ghost(reported)
+@*/
+
+// Name lookup (C03, C01): a name means its innermost binding - the binding of
+// the innermost scope that has one - and is unbound only if no scope binds it.
+
+/*@ func (self Module) getVar
+    serves C03, C01
+    ensures @innermost-binding found ==> int(scope) < len(self.Scopes) && haskey(self.Scopes[scope].Values, ident) && self.Scopes[scope].Values[ident] == val && forall j in int(scope)+1..len(self.Scopes) :: !haskey(self.Scopes[j].Values, ident)
+    ensures @unbound-means-absent !found ==> forall j in 0..len(self.Scopes) :: !haskey(self.Scopes[j].Values, ident)
+    loop 1 invariant -1 <= idx && idx < len(self.Scopes) && forall j in idx+1..len(self.Scopes) :: !haskey(self.Scopes[j].Values, ident)
+@*/
+
+/*@ func (self Module) getType
+    serves C03
+    ensures @innermost-binding found ==> exists i in 0..len(self.Scopes) :: haskey(self.Scopes[i].Types, ident) && self.Scopes[i].Types[ident] == typ && forall j in i+1..len(self.Scopes) :: !haskey(self.Scopes[j].Types, ident)
+    ensures @unbound-means-absent !found ==> forall j in 0..len(self.Scopes) :: !haskey(self.Scopes[j].Types, ident)
+    loop 1 invariant -1 <= idx && idx < len(self.Scopes) && forall j in idx+1..len(self.Scopes) :: !haskey(self.Scopes[j].Types, ident)
 @*/
